@@ -20,6 +20,10 @@ Decided statically (guards and wiring only; DESIGN.md §3/C12):
                  TruncatedDoubleGeometric is a rejection sampler that returns the draw itself, unchanged, exactly on the
                  edge 0 <= draw <= 2*shift and redraws otherwise (folding, clamping or re-mapping rejected draws changes
                  the law at the ends of the support).
+  SHAPE-eq11     find_smallest_n scans n = big_delta, big_delta+1, .. and returns the first n with
+                 small_delta >= right_hand_side(n, big_delta, epsilon); right_hand_side is a(r, n) * sum_{k=n-D+1..=n} r^k with
+                 r = e^-epsilon and a = (1-r)/(1+r-2 r^(n+1)) (eq. 11 of arXiv 2110.08177): the extracted prefactor is compared
+                 numerically with that closed form over a grid of (epsilon, n), the summation range with integer evaluation.
 The achieved distribution as a numerical object, the truncation point and the achieved delta are not decided.
 """
 import re, struct
@@ -37,6 +41,7 @@ def run(ctx):
     modulus(ctx, facts)
     passes(ctx, facts)
     samplers(ctx, facts)
+    truncation_formula(ctx, facts)
     ctx.assume("the numerical law of the samplers (probabilities, find_smallest_n, achieved delta) is not decided; rand's Bernoulli/Uniform are trusted")
 
 
@@ -486,3 +491,137 @@ def samplers(ctx, facts):
 
 def f64_bits(x):
     return struct.unpack("<Q", struct.pack("<d", x))[0]
+
+
+# ---------------------------------------------------------------------------------------------
+def feval(e, env):
+    """float evaluation of an extracted f64 expression; integer constants in float position are IEEE-754 bit patterns"""
+    import math
+    e = flow.strip_casts(e)
+    for k, v in env.items():
+        if e == k:
+            return v
+    if e[0] == "const" and isinstance(e[1], int):
+        return f64_of(e[1])
+    if e[0] == "un" and e[1] == "Neg":
+        return -feval(e[2], env)
+    if e[0] == "bin":
+        a, b = feval(e[2], env), feval(e[3], env)
+        op = e[1]
+        if op == "Add":
+            return a + b
+        if op == "Sub":
+            return a - b
+        if op == "Mul":
+            return a * b
+        if op == "Div":
+            return a / b
+        raise NoFloat(op)
+    if e[0] == "call":
+        fn = e[1]
+        if fn.endswith("::powf") or fn.endswith("::powi"):
+            return feval(e[2][0], env) ** (feval(e[2][1], env) if fn.endswith("powf") else iev(e[2][1], env))
+        if fn.endswith("::exp"):
+            return math.exp(feval(e[2][0], env))
+        if fn.endswith("insecure::pow_u32"):
+            return feval(e[2][0], env) ** iev(e[2][1], env)
+        if re.search(r"From::from$|Into::into$", fn):
+            return feval(e[2][0], env)
+    raise NoFloat(str(e)[:60])
+
+
+def iev(e, env):
+    e = flow.strip_casts(e)
+    for k, v in env.items():
+        if e == k:
+            return v
+    if e[0] == "const" and isinstance(e[1], int):
+        return e[1]
+    if e[0] == "bin":
+        a, b = iev(e[2], env), iev(e[3], env)
+        op = e[1].replace("WithOverflow", "")
+        if op in ("Add", "Sub", "Mul"):
+            return {"Add": a + b, "Sub": a - b, "Mul": a * b}[op]
+    if e[0] == "proj":
+        return iev(e[1], env)
+    raise NoFloat(str(e)[:60])
+
+
+class NoFloat(Exception):
+    pass
+
+
+def truncation_formula(ctx, facts):
+    ctx.rule("SHAPE-eq11: find_smallest_n iterates RangeFrom(big_delta) and returns the loop value on the true edge of `small_delta >= right_hand_side(n, big_delta, epsilon)`; right_hand_side returns prefactor * sum, the prefactor equals (1-r)/(1+r-2r^(n+1)) with r = e^-epsilon numerically on a grid, the sum runs over k in n-big_delta+1..=n and accumulates r^k")
+    P = "protocol::ipa_prf::oprf_padding::insecure::"
+    f_ = facts.bodies.get(P + "find_smallest_n")
+    r_ = facts.bodies.get(P + "right_hand_side")
+    if f_ is None or r_ is None:
+        ctx.missing("SHAPE-eq11", "find_smallest_n / right_hand_side")
+        return
+    ctx.count(bodies=2)
+    dom = f_.dominators()
+    ret = flow.strip_casts(flow.expr_of(f_, {"cp": [0]}, max_depth=30))
+    loopv = ret if ret[0] == "proj" and "Iterator::next" in str(ret) else None
+    start_ok = loopv is not None and "('agg', ('std::ops::RangeFrom', 'RangeFrom'), (('arg', 1),))" in str(loopv)
+    ctx.ob("SHAPE-eq11", "find_smallest_n:scan-from-big_delta", start_ok, "n = big_delta, big_delta + 1, .." if start_ok else "the search for the truncation point does not scan n upwards from big_delta and return the scanned value", site_of(f_))
+    pred = None
+    for tgt, fct in flow.edge_guards(f_):
+        if fct[0] in ("Ge", "Le", "Gt", "Lt") and "right_hand_side" in str(fct):
+            pred = pred or {}
+            pred[fct[0]] = (tgt, fct)
+    okp = False
+    if pred and ("Ge" in pred or "Le" in pred):
+        if "Ge" in pred:
+            tgt, fct = pred["Ge"]
+            okp = flow.strip_casts(fct[1]) == ("arg", 3) and fct[2][0] == "call"
+        else:
+            tgt, fct = pred["Le"]
+            okp = fct[2] is not None and flow.strip_casts(fct[2]) == ("arg", 3) and fct[1][0] == "call"
+        rhs = fct[2] if fct[2][0] == "call" else fct[1]
+        okp = okp and loopv is not None and flow.strip_casts(rhs[2][0]) == loopv and flow.strip_casts(rhs[2][1]) == ("arg", 1) and flow.strip_casts(rhs[2][2]) == ("arg", 2)
+        okp = okp and any(flow.dominates(dom, tgt, rb) for rb in flow.ret_blocks(f_)) is not None
+    ctx.ob("SHAPE-eq11", "find_smallest_n:first-n-with-rhs<=delta", okp, "returns the first n with right_hand_side(n, big_delta, epsilon) <= small_delta" if okp else "the acceptance test of the search is not `small_delta >= right_hand_side(n, big_delta, epsilon)` (strict comparison or swapped arguments move the truncation point, i.e. the achieved delta)", site_of(f_))
+    # right_hand_side
+    ret = flow.strip_casts(flow.expr_of(r_, {"cp": [0]}, max_depth=40))
+    ok_mul = ret[0] == "bin" and ret[1] == "Mul"
+    pref = None
+    if ok_mul:
+        # one factor is the accumulated sum (a place / loop-carried local), the other the closed-form prefactor
+        cands = [x for x in (ret[2], ret[3]) if flow.strip_casts(x)[0] != "place"]
+        pref = cands[0] if len(cands) == 1 else None
+    okf, why = False, "right_hand_side is not prefactor * (loop-accumulated sum)"
+    if pref is not None:
+        import math
+        try:
+            worst = 0.0
+            for eps in (0.01, 0.1, 0.5, 1.0, 2.0, 5.0):
+                for n in (1, 2, 3, 10, 41, 200, 1000):
+                    got = feval(pref, {("arg", 3): eps, ("arg", 1): n})
+                    r = math.exp(-eps)
+                    want = (1 - r) / (1 + r - 2 * r ** (n + 1))
+                    worst = max(worst, abs(got - want) / abs(want))
+            okf = worst < 1e-9
+            why = f"prefactor = (1-r)/(1+r-2r^(n+1)) on the grid (max rel. error {worst:.1e})" if okf else f"the prefactor deviates from (1-r)/(1+r-2r^(n+1)), r = e^-epsilon, by a relative {worst:.2e} on the grid: the tail mass compared with delta is not the one of eq. 11"
+        except (NoFloat, ZeroDivisionError, OverflowError) as u:
+            why = f"cannot evaluate the prefactor ({u})"
+    ctx.ob("SHAPE-eq11", "right_hand_side:prefactor", okf, why, site_of(r_))
+    rng = [(bb, t) for bb, t in r_.calls() if (F.callee(t)[0] or "").endswith("RangeInclusive::<Idx>::new")]
+    okr = False
+    if len(rng) == 1:
+        try:
+            okr = all(iev(flow.expr_of(r_, rng[0][1]["args"][0], max_depth=20), {("arg", 1): n, ("arg", 2): d}) == n - d + 1 and iev(flow.expr_of(r_, rng[0][1]["args"][1], max_depth=20), {("arg", 1): n, ("arg", 2): d}) == n for n in (5, 17, 100) for d in (1, 2, 5))
+        except NoFloat:
+            okr = False
+    ctx.ob("SHAPE-eq11", "right_hand_side:sum-range", okr, "k runs over n-big_delta+1 ..= n" if okr else "the tail sum does not run over k = n-big_delta+1 ..= n (inclusive): one term too few / too many changes the certified delta", site_of(r_, rng[0][0]) if rng else site_of(r_))
+    acc = False
+    for bb, idx, st in r_.iter_assigns():
+        if st["r"]["k"] == "bin" and st["r"].get("op") == "Add" and r_.local_ty(st["p"][0]) == "f64":
+            e = str(flow.expr_of(r_, {"cp": st["p"]}, max_depth=12)) if False else str([flow.expr_of(r_, o, max_depth=25) for o in (st["r"].get("l"), st["r"].get("r")) if o])
+            if "pow_u32" in e and "Iterator::next" in e:
+                acc = True
+    if not acc:
+        for bb, t in r_.calls():
+            if (F.callee(t)[0] or "").endswith("insecure::pow_u32") and "Iterator::next" in str(flow.expr_of(r_, t["args"][1], max_depth=25)) and "powf" in str(flow.expr_of(r_, t["args"][0], max_depth=25)):
+                acc = True
+    ctx.ob("SHAPE-eq11", "right_hand_side:accumulates-r^k", acc, "result += r^k for the loop's k" if acc else "the loop body does not accumulate r^k of the loop variable", site_of(r_))
